@@ -110,7 +110,20 @@ PROGRAMS = {
     "dotted_or": ('has(a.b) ? a.b : 0 - 1', {"a.b": "int"}),
     "macro": ("[1, 2].map(v, v + x)", {"x": "int"}),
     "logic": ("x > 1 || y / 0 > 0", {"x": "int", "y": "int"}),
+    # values that are == and hash alike but are different CEL values (sign of zero, int / uint / double / bool of one number):
+    # any memo keyed by value, hash or == conflates them
+    "recip": ("1.0 / x", {}), "mixed": ("x / x + x", {}), "text": ("string(x)", {}), "isint": ("type(x) == int", {}), "cond": ("x ? 'yes' : 'no'", {}),
+    "neg_in_list": ("[x, 0.0 - x]", {}),
+    "lit_div_pz": ("1.0 / 0.0", {}), "lit_div_nz": ("1.0 / -0.0", {}), "lit_mul_pz": ("0.0 * 5.0", {}), "lit_mul_nz": ("-0.0 * 5.0", {}),
+    "lit_add_pz": ("0.0 + 0.0", {}), "lit_add_nz": ("-0.0 + -0.0", {}), "lit_one_i": ("1 + 1", {}), "lit_one_u": ("1u + 1u", {}), "lit_one_d": ("1.0 + 1.0", {}),
+    "lit_seven_i": ("7 / 2", {}), "lit_seven_u": ("7u / 2u", {}), "lit_seven_d": ("7.0 / 2.0", {}),
 }
+LITERAL_FAMILY = [p_ for p_ in PROGRAMS if p_.startswith("lit_")]
+
+
+def T(kind, text):
+    return {"$t": kind, "v": text}
+
 BINDINGS = {
     "hostfn_list": [{"l": {"a": 1}}], "hostfn_dict": [{"l": {"a": 1}}], "builtin_size": [{"l": {"a": 1, "b": 2}}], "unbound_tag": [{"l": {"a": 1}}],
     "sum": [{"x": 1, "y": 2}, {"x": 40, "y": 2}],
@@ -118,7 +131,15 @@ BINDINGS = {
     "dotted_or": [{"a.b": 5}, {}],
     "macro": [{"x": 10}, {"x": 20}],
     "logic": [{"x": 5, "y": 1}, {"x": 0, "y": 1}],
+    "recip": [{"x": T("double", "0.0")}, {"x": T("double", "-0.0")}],
+    "mixed": [{"x": T("int", "9")}, {"x": T("double", "9.0")}, {"x": T("uint", "9")}],
+    "text": [{"x": T("int", "7")}, {"x": T("double", "7.0")}, {"x": T("uint", "7")}, {"x": T("double", "-0.0")}, {"x": T("double", "0.0")}],
+    "isint": [{"x": T("int", "7")}, {"x": T("double", "7.0")}, {"x": T("uint", "7")}, {"x": T("bool", "true")}, {"x": T("int", "1")}],
+    "cond": [{"x": T("bool", "true")}, {"x": T("int", "1")}, {"x": T("bool", "false")}, {"x": T("int", "0")}],
+    "neg_in_list": [{"x": T("double", "0.0")}, {"x": T("double", "-0.0")}],
 }
+for _p in LITERAL_FAMILY:
+    BINDINGS[_p] = [{}]
 
 
 def histories(tier, rng):
@@ -140,6 +161,11 @@ def histories(tier, rng):
         for first in ("hostfn_list", "hostfn_dict"):
             for second in ("builtin_size", "unbound_tag"):
                 hs.append([(first, r1, 0), (second, r2, 0)])
+    # (2c) literal programs that differ only in values which are == and hash alike: all ordered pairs, per runner
+    for r in runners:
+        for a, b in itertools.permutations(LITERAL_FAMILY, 2):
+            if a.split("_")[1] == b.split("_")[1]:
+                hs.append([(a, r, 0), (b, r, 0)])
     # (3) longer random histories
     for _ in range(200 if tier == "thorough" else 25):
         hs.append([rng.choice(evals) for _ in range(rng.choice((3, 4)))])
